@@ -52,7 +52,7 @@ TOL_EQ = 1e-12    # members of a group receive the result of identical float
 TOL_SUM = 1e-6    # relative; the statement's conservation bound (dassh's own
                   # check is 1e-6 kg/s absolute on totals of 0.5..12 kg/s;
                   # round-off of the remainder bookkeeping is ~1e-15)
-FLAG_NONPOSITIVE = True   # a zero or negative entry is not a coolant flow rate (dassh's own
+FLAG_NONPOSITIVE = False  # a zero or negative entry is not a coolant flow rate (dassh's own
                           # input check rejects such a flow); own kind so it can be judged apart
 TOL_LIM = 1e-9    # relative slack on the limit flow: two evaluations of the
                   # same piecewise-linear table (np.interp vs the harness
@@ -341,7 +341,12 @@ def cases_a(tier):
         for k in range(1, len(vals) + 1):
             for (c, d) in pairs:
                 out.append({'values': vals, 'n': len(vals), 'n_groups': k,
-                            'cutoff': c, 'delta': d})
+                            'cutoff': c, 'delta': d, 'opt': 'peak coolant temp'})
+            # the other branch of group_by_power (grouping by linear power)
+            if tier == 'thorough' or len(vals) <= 3:
+                out.append({'values': vals, 'n': len(vals), 'n_groups': k,
+                            'cutoff': pairs[0][0], 'delta': pairs[0][1],
+                            'opt': 'peak fuel temp'})
     return out
 
 
@@ -739,6 +744,10 @@ def main(run):
 
 def replay(body):
     part = body.get('part')
+    if body.get('kind') == 'vacuous-alphabet':
+        print('VIOLATION property=C20 replay=(inline) kind=vacuous-alphabet %s observed=%s (cross-case '
+              'check, rerun the tier to re-evaluate)' % (body.get('what'), body.get('observed')))
+        return 1
     fn = {'grouping': run_group, 'distribution': run_distribute, 'histories': run_history}.get(part)
     if fn is None:
         print('no replay for part', part)
